@@ -72,7 +72,9 @@ _Bool g_alloc_may_fail, g_dtor_stub, mon_check; int mon_role;       /* mon_role:
 
 /* ---- guard_ptr contract stubs ---- */
 word_t it_guard; _Bool it_acquired; uint64_t it_acq_clock;
-#define G_acquire(g, cell, order) ((g) = A_LOAD(cell, order), it_guard = (g), it_acquired = 1, it_acq_clock = xv_clock)
+/* sync preconditions: the loads through which a node linked by another thread's release CAS is reached are acquire-or-stronger */
+int it_acq_order, it_next_order;
+#define G_acquire(g, cell, order) ((g) = A_LOAD(cell, order), it_guard = (g), it_acquired = 1, it_acq_clock = xv_clock, it_acq_order = (order))
 unsigned it_reclaims; word_t it_reclaimed;
 #define G_reclaim(g) (g_reclaim(g), (g) = 0)
 
@@ -218,7 +220,7 @@ static void XV_DELETE_NODE(marked_ptr w) {
 #define IT_ENTRY ((void*)&a_ent[IT_GI][it_idx % XV_E].value)
 static void mon_load(void* addr, uint64_t v, int o) {
   if (!mon_check || !it_acquired) return;
-  if (addr == (void*)&a_next[IT_GI]) { it_next_val = v; it_next_loaded = 1; }
+  if (addr == (void*)&a_next[IT_GI]) { it_next_val = v; it_next_loaded = 1; it_next_order = o; }
   if (IT_HAS_TICKET && addr == IT_ENTRY) { it_entry_seen = v; it_entry_read = 1; }
 }
 static void mon_store(void* addr, uint64_t v, int o) { }
@@ -230,6 +232,7 @@ static void mon_rmw(void* addr, uint64_t oldv, uint64_t newv, int o) {
   } else {
     /* the only other RMW is pop's exchange on the entry of its ticket */
     XV_OBL("ram.pop.commit", IT_HAS_TICKET && addr == IT_ENTRY && newv == INVALID && XV_IS_ACQUIRE(o));
+    XV_OBL("ram.sync.acquire", XV_IS_ACQUIRE(it_acq_order));      /* the node whose entry is taken was reached through an acquiring guard */
     it_entry_xchg = 1; it_entry_seen = oldv; it_entry_read = 1;
   }
 }
@@ -240,10 +243,12 @@ static void mon_cas(void* addr, uint64_t e, uint64_t d, _Bool ok, int o) {
     it_tail_cas++;
     XV_OBL("ram.push.commit", it_acquired && e == it_guard && d != 0 && XV_IS_RELEASE(o)
            && ((it_link_ok && d == it_link_desired) || (!it_link_tried && it_next_loaded && d == it_next_val)));
+    XV_OBL("ram.sync.acquire", XV_IS_ACQUIRE(it_acq_order) && (it_link_ok || XV_IS_ACQUIRE(it_next_order)));
   } else if (addr == (void*)&mon_q->_head) {
     it_head_cas++; it_head_cas_ok = ok;
     XV_OBL("ram.pop.commit", it_acquired && e == it_guard && it_next_loaded && d == it_next_val && d != 0 && XV_IS_RELEASE(o)
            && it_ticket_drawn && it_idx >= max_idx);
+    XV_OBL("ram.sync.acquire", XV_IS_ACQUIRE(it_acq_order) && XV_IS_ACQUIRE(it_next_order));
   } else if (it_acquired && addr == (void*)&a_next[IT_GI]) {
     /* link a new node behind the protected tail node */
     XV_OBL("ram.push.commit", !it_link_tried && e == 0 && d == g_last_alloc && g_alloc_count == g_delete_count + 1 && XV_IS_RELEASE(o)
@@ -253,6 +258,7 @@ static void mon_cas(void* addr, uint64_t e, uint64_t d, _Bool ok, int o) {
   } else {
     /* store the value into the entry of the ticket just drawn */
     XV_OBL("ram.push.commit", IT_HAS_TICKET && addr == IT_ENTRY && !it_entry_cas && e == 0 && d == g_raw && XV_IS_RELEASE(o));
+    XV_OBL("ram.sync.acquire", XV_IS_ACQUIRE(it_acq_order));
     it_entry_cas = 1; it_entry_cas_ok = ok;
   }
 }
